@@ -73,6 +73,9 @@ func origFn(f *ssa.Function) *ssa.Function {
 	if o, ok := inlineOf[f]; ok {
 		return o
 	}
+	if o, ok := ssa.ViewOf[f]; ok {
+		return o // a closure copied into a view
+	}
 	return f
 }
 
